@@ -8,11 +8,11 @@
                     the file under some name, and what importing jedi's name gives
 
    Clauses (names are printed on REJECT):
-     RefVsOracle      the Reference of Imports.tla, evaluated on the recorded layout,
-                      agrees with what CPython did (keeps the Reference honest)
-     SameTarget       jedi's result is the one the import system selected (property)
-     DottedRoundTrip  jedi's dotted name imports back to the file (property)
-   plus the names of the modelled deviations (Imports.tla) that explain a failure.   *)
+     RO RefVsOracle      the Reference of Imports.tla, evaluated on the recorded layout,
+                         agrees with what CPython did (keeps the Reference honest)
+     ST SameTarget       jedi's result is the one the import system selected (property)
+     RT DottedRoundTrip  jedi's dotted name imports back to the file (property)
+   plus the codes of the modelled deviations (Imports.tla) that explain a failure.   *)
 EXTENDS Naturals, Sequences, FiniteSets, TLC, Json, IOUtils
 
 CONSTANTS Names, AttrNames, MaxDepth, MaxNodes, Kinds, Shapes, MaxLevel, MaxFromPath, EmitMod, EmitRem
@@ -43,24 +43,38 @@ RefAgrees(e) ==
   /\ \A i \in 1..Len(e.py) : \E a \in RefAns(e) : Cov(e.py[i], a)
   /\ \A a \in RefAns(e) : a.any \/ \E i \in 1..Len(e.py) : ~e.py[i].any /\ Cov(e.py[i], a)
 
+\* judged with the Reference's answers, which RefAgrees ties to what CPython did (the Reference
+\* leaves a few classes open on purpose, e.g. a module importing its own attribute)
 HoldsLogged(rs, e) ==
   /\ Cardinality(JSet(rs)) = 1
-  /\ \E i \in 1..Len(e.py) :
-        e.py[i].any \/ \E k \in 1..Len(e.py[i].ok) : \A j \in JSet(rs) : SameR(j, e.py[i].ok[k])
+  /\ \E a \in RefAns(e) : \A j \in JSet(rs) : Holds1(j, a)
 SameT(e) == HoldsLogged(e.infer, e) /\ HoldsLogged(e.goto, e)
 
 \* dotted events: importable = CPython loads the file under some dotted name
 DotRef(e)  == (RunNames(e.imp) # {}) = e.importable
 DotOK(e)   == (e.importable /\ e.dotted # <<>>) => (e.back = <<FileR(e.imp)>>)
 
+\* a failure is attributed to a named deviation of Imports.tla only when the recorded results
+\* are exactly what the Design (as it is) predicts and switching the deviation off repairs it
+Devs(e) ==
+  IF /\ ~OKq(e.form, e.imp, AsIs)
+     /\ JSet(e.infer) = {DResolve(e.form, e.imp, AsIs, FALSE)}
+     /\ JSet(e.goto) = {DResolve(e.form, e.imp, AsIs, TRUE)}
+  THEN Explains(e.form, e.imp) ELSE {}
+DotDevs(e) ==
+  IF /\ e.dotted = DDotted(e.imp, AsIs) /\ ~RoundTripOK(e.imp, AsIs)
+     /\ RoundTripOK(e.imp, [selfcache |-> TRUE, shortest |-> FALSE])
+  THEN {"ShortestDotted"} ELSE {}
+
+\* short codes keep the printed verdict on one line: RO RefVsOracle, ST SameTarget,
+\* RT DottedRoundTrip, SC SelfCache, SD ShortestDotted, SC+SD both
+Code(n) == IF n = "SelfCache" THEN "SC" ELSE IF n = "ShortestDotted" THEN "SD" ELSE "SC+SD"
 Why(e) ==
   IF e.ev = "query"
-  THEN (IF RefAgrees(e) THEN {} ELSE {"RefVsOracle"})
-       \cup (IF SameT(e) THEN {} ELSE {"SameTarget"} \cup Explains(e.form, e.imp))
-  ELSE (IF DotRef(e) THEN {} ELSE {"RefVsOracle"})
-       \cup (IF DotOK(e) THEN {} ELSE {"DottedRoundTrip"}
-                \cup (IF RoundTripOK(e.imp, [selfcache |-> TRUE, shortest |-> FALSE])
-                      THEN {"ShortestDotted"} ELSE {}))
+  THEN (IF RefAgrees(e) THEN {} ELSE {"RO"})
+       \cup (IF SameT(e) THEN {} ELSE {"ST"} \cup {Code(n) : n \in Devs(e)})
+  ELSE (IF DotRef(e) THEN {} ELSE {"RO"})
+       \cup (IF DotOK(e) THEN {} ELSE {"RT"} \cup {Code(n) : n \in DotDevs(e)})
 
 TNext == /\ l <= Len(Traces[tid])
          /\ (Why(Ev) = {}) = TRUE
